@@ -103,21 +103,92 @@ Proof.
   - exists a; auto.
 Qed.
 
+(* ---- what an eviction policy has to guarantee ------------------------------
+   It only removes entries (never adds or alters one), never removes the
+   requested chunk, keeps keys unique, and removes exactly one entry when the
+   cache holds two or more. Nothing else about the choice matters. *)
+Definition policy_ok (ev : Z -> cache -> cache) : Prop :=
+  forall idx c,
+    (forall kv, In kv (ev idx c) -> In kv c)
+    /\ lookup idx (ev idx c) = lookup idx c
+    /\ (NoDup (map fst c) -> NoDup (map fst (ev idx c)))
+    /\ (NoDup (map fst c) -> (2 <= length c)%nat ->
+        length c = S (length (ev idx c))).
+
+(* the policy of the code meets it *)
+Lemma evict_policy_ok : policy_ok evict.
+Proof.
+  intros idx c. unfold evict. repeat split.
+  - intros kv.
+    destruct (remove_first (fun k => negb (k =? 0) && negb (k =? idx)) c) as [c'|] eqn:E1; [eapply remove_first_In; eauto|].
+    destruct (remove_first (fun k => negb (k =? idx)) c) as [c'|] eqn:E2; [eapply remove_first_In; eauto|auto].
+  - destruct (remove_first (fun k => negb (k =? 0) && negb (k =? idx)) c) as [c'|] eqn:E1.
+    { eapply remove_first_lookup; eauto. simpl. rewrite Z.eqb_refl. now rewrite andb_false_r. }
+    destruct (remove_first (fun k => negb (k =? idx)) c) as [c'|] eqn:E2; [|reflexivity].
+    eapply remove_first_lookup; eauto. simpl. now rewrite Z.eqb_refl.
+  - intros H.
+    destruct (remove_first (fun k => negb (k =? 0) && negb (k =? idx)) c) as [c'|] eqn:E1; [eapply remove_first_NoDup; eauto|].
+    destruct (remove_first (fun k => negb (k =? idx)) c) as [c'|] eqn:E2; [eapply remove_first_NoDup; eauto|auto].
+  - intros Hnd Hlen.
+    destruct (remove_first (fun k => negb (k =? 0) && negb (k =? idx)) c) as [c'|] eqn:E1; [eapply remove_first_length; eauto|].
+    destruct (remove_first (fun k => negb (k =? idx)) c) as [c'|] eqn:E2; [eapply remove_first_length; eauto|].
+    exfalso.
+    destruct (NoDup_two_other idx (map fst c) Hnd) as [k [Hin Hk]];
+      [now rewrite map_length|].
+    pose proof (remove_first_None _ _ E2 k Hin) as Hp. simpl in Hp. lia.
+Qed.
+
+(* other policies meet it too, e.g. "drop the oldest chunk that is not the
+   requested one" (chunk 0 not pinned): the theorems do not depend on which
+   chunk goes *)
+Definition evict_unpinned (idx : Z) (c : cache) : cache :=
+  match remove_first (fun k => negb (k =? idx)) c with
+  | Some c' => c'
+  | None => c
+  end.
+
+Lemma evict_unpinned_policy_ok : policy_ok evict_unpinned.
+Proof.
+  intros idx c. unfold evict_unpinned. repeat split.
+  - intros kv.
+    destruct (remove_first (fun k => negb (k =? idx)) c) as [c'|] eqn:E2; [eapply remove_first_In; eauto|auto].
+  - destruct (remove_first (fun k => negb (k =? idx)) c) as [c'|] eqn:E2; [|reflexivity].
+    eapply remove_first_lookup; eauto. simpl. now rewrite Z.eqb_refl.
+  - intros H.
+    destruct (remove_first (fun k => negb (k =? idx)) c) as [c'|] eqn:E2; [eapply remove_first_NoDup; eauto|auto].
+  - intros Hnd Hlen.
+    destruct (remove_first (fun k => negb (k =? idx)) c) as [c'|] eqn:E2; [eapply remove_first_length; eauto|].
+    exfalso.
+    destruct (NoDup_two_other idx (map fst c) Hnd) as [k [Hin Hk]];
+      [now rewrite map_length|].
+    pose proof (remove_first_None _ _ E2 k Hin) as Hp. simpl in Hp. lia.
+Qed.
+
+(* the policy of the code before repair 96f1c8a does not: it can remove the
+   requested chunk *)
+Lemma evict_old_not_policy_ok : ~ policy_ok (fun _ c => evict_old c).
+Proof.
+  intros H. destruct (H 5 [(0, []); (5, [1])]) as (_ & Hl & _).
+  vm_compute in Hl. discriminate.
+Qed.
+
 (* ---- the HTTP file -------------------------------------------------------- *)
 Section HTTP.
   Variable res : list Z.
   Variable junk : Z -> Z -> list Z.
   Variable cs keep : Z.
+  Variable ev : Z -> cache -> cache.
   Hypothesis Hcs : 0 < cs.
   Hypothesis Hkeep : 1 <= keep.
+  Hypothesis Hev : policy_ok ev.
 
   Notation len := (len res).
   Notation download := (download res junk).
-  Notation get_chunk := (get_chunk res junk cs keep).
-  Notation rrc_loop := (rrc_loop res junk cs keep).
-  Notation rrc := (rrc res junk cs keep).
-  Notation step := (step res junk cs keep).
-  Notation run := (run res junk cs keep).
+  Notation get_chunk := (get_chunk res junk cs keep ev).
+  Notation rrc_loop := (rrc_loop res junk cs keep ev).
+  Notation rrc := (rrc res junk cs keep ev).
+  Notation step := (step res junk cs keep ev).
+  Notation run := (run res junk cs keep ev).
 
   Definition chunk_of (k : Z) : list Z := slice res (k * cs) (Z.min ((k + 1) * cs) len).
 
@@ -138,45 +209,23 @@ Section HTTP.
     symmetry; nia.
   Qed.
 
-  Lemma evict_sub idx c kv : In kv (evict idx c) -> In kv c.
-  Proof.
-    unfold evict.
-    destruct (remove_first (fun k => negb (k =? 0) && negb (k =? idx)) c) as [c'|] eqn:E1; [eapply remove_first_In; eauto|].
-    destruct (remove_first (fun k => negb (k =? idx)) c) as [c'|] eqn:E2; [eapply remove_first_In; eauto|auto].
-  Qed.
+  Lemma evict_sub idx c kv : In kv (ev idx c) -> In kv c.
+  Proof. apply (Hev idx c). Qed.
 
-  Lemma evict_lookup idx c : lookup idx (evict idx c) = lookup idx c.
-  Proof.
-    unfold evict.
-    destruct (remove_first (fun k => negb (k =? 0) && negb (k =? idx)) c) as [c'|] eqn:E1.
-    { eapply remove_first_lookup; eauto. simpl. rewrite Z.eqb_refl. now rewrite andb_false_r. }
-    destruct (remove_first (fun k => negb (k =? idx)) c) as [c'|] eqn:E2; [|reflexivity].
-    eapply remove_first_lookup; eauto. simpl. now rewrite Z.eqb_refl.
-  Qed.
+  Lemma evict_lookup idx c : lookup idx (ev idx c) = lookup idx c.
+  Proof. apply (Hev idx c). Qed.
 
-  Lemma evict_NoDup idx c : NoDup (map fst c) -> NoDup (map fst (evict idx c)).
-  Proof.
-    unfold evict; intros H.
-    destruct (remove_first (fun k => negb (k =? 0) && negb (k =? idx)) c) as [c'|] eqn:E1; [eapply remove_first_NoDup; eauto|].
-    destruct (remove_first (fun k => negb (k =? idx)) c) as [c'|] eqn:E2; [eapply remove_first_NoDup; eauto|auto].
-  Qed.
+  Lemma evict_NoDup idx c : NoDup (map fst c) -> NoDup (map fst (ev idx c)).
+  Proof. apply (Hev idx c). Qed.
 
   Lemma evict_length idx c :
-    NoDup (map fst c) -> (2 <= length c)%nat -> length c = S (length (evict idx c)).
-  Proof.
-    unfold evict; intros Hnd Hlen.
-    destruct (remove_first (fun k => negb (k =? 0) && negb (k =? idx)) c) as [c'|] eqn:E1; [eapply remove_first_length; eauto|].
-    destruct (remove_first (fun k => negb (k =? idx)) c) as [c'|] eqn:E2; [eapply remove_first_length; eauto|].
-    exfalso.
-    destruct (NoDup_two_other idx (map fst c) Hnd) as [k [Hin Hk]];
-      [now rewrite map_length|].
-    pose proof (remove_first_None _ _ E2 k Hin) as Hp. simpl in Hp. lia.
-  Qed.
+    NoDup (map fst c) -> (2 <= length c)%nat -> length c = S (length (ev idx c)).
+  Proof. apply (Hev idx c). Qed.
 
   Lemma get_chunk_Good idx c c' r :
     Good c -> get_chunk idx c = (c', r) -> Good c'.
   Proof.
-    unfold C19.get_chunk; intros HG [= <- _].
+    unfold C19.get_chunk, insert_chunk; intros HG [= <- _].
     set (c1 := match lookup idx c with Some _ => c | None => _ end).
     assert (HG1 : Good c1).
     { subst c1. destruct (lookup idx c) eqn:El; [exact HG|].
@@ -188,7 +237,7 @@ Section HTTP.
 
   Lemma get_chunk_found idx c : exists v, snd (get_chunk idx c) = Some v.
   Proof.
-    unfold C19.get_chunk; simpl.
+    unfold C19.get_chunk, insert_chunk; simpl.
     set (c1 := match lookup idx c with Some _ => c | None => _ end).
     assert (H1 : exists v, lookup idx c1 = Some v).
     { subst c1. destruct (lookup idx c) eqn:El; [eauto|].
@@ -207,7 +256,7 @@ Section HTTP.
 
   Lemma get_chunk_Bnd idx c : Bnd c -> Bnd (fst (get_chunk idx c)).
   Proof.
-    unfold C19.get_chunk, Bnd; simpl; intros [Hnd Hl].
+    unfold C19.get_chunk, insert_chunk, Bnd; simpl; intros [Hnd Hl].
     set (c1 := match lookup idx c with Some _ => c | None => _ end).
     assert (H1 : NoDup (map fst c1) /\ Z.of_nat (length c1) <= keep + 1).
     { subst c1. destruct (lookup idx c) eqn:El; [split; [auto|lia]|].
@@ -372,13 +421,90 @@ Section HTTP.
   Qed.
 
   Theorem cache_bounded ops : forall s,
-    Bnd (chunks s) -> run_maxheld res junk cs keep s ops <= keep.
+    Bnd (chunks s) -> run_maxheld res junk cs keep ev s ops <= keep.
   Proof.
     induction ops as [|o ops IH]; intros s HB; simpl.
     - apply HB.
     - apply Z.max_lub; [apply HB|]. apply IH. now apply step_Bnd.
   Qed.
+
+  (* ---- the transient inside get_cache_chunk ------------------------------ *)
+  Lemma insert_chunk_length idx c :
+    Z.of_nat (length (insert_chunk res junk cs idx c)) <= Z.of_nat (length c) + 1.
+  Proof.
+    unfold insert_chunk. destruct (lookup idx c); [lia|].
+    rewrite app_length; simpl; lia.
+  Qed.
+
+  Lemma loop_peak n : forall k pos toread stop c,
+    Bnd c -> rrc_loop_peak res junk cs keep ev n k pos toread stop c <= keep + 1.
+  Proof.
+    induction n as [|n IH]; intros k pos toread stop c HB; cbn [rrc_loop_peak].
+    { destruct HB; lia. }
+    pose proof (insert_chunk_length k c) as Hi.
+    assert (Hh : Z.of_nat (length (insert_chunk res junk cs k c)) <= keep + 1)
+      by (destruct HB; lia).
+    pose proof (get_chunk_Bnd k c HB) as HB'.
+    destruct (get_chunk k c) as [c' [chunk|]]; simpl in HB'; [|exact Hh].
+    destruct (toread =? 0); [exact Hh|].
+    destruct (cs <=? pos mod cs + toread); apply Z.max_lub; auto.
+  Qed.
+
+  Lemma step_peak_bound s o :
+    Bnd (chunks s) -> step_peak res junk cs keep ev s o <= keep + 1.
+  Proof.
+    intros HB. destruct o as [w off| |n]; simpl; try (destruct HB; lia).
+    unfold rrc_peak. destruct (_ <=? 0); [destruct HB; lia|]. now apply loop_peak.
+  Qed.
+
+  Theorem peak_bounded ops : forall s,
+    Bnd (chunks s) -> run_peak res junk cs keep ev s ops <= keep + 1.
+  Proof.
+    induction ops as [|o ops IH]; intros s HB; simpl.
+    - destruct HB; lia.
+    - apply Z.max_lub; [now apply step_peak_bound|]. apply IH. now apply step_Bnd.
+  Qed.
+
+  (* ---- adaptive clients --------------------------------------------------- *)
+  Theorem interact_spec fuel (rd : reader) : forall s hist,
+    Good (chunks s) -> Bnd (chunks s) -> 0 <= pos s ->
+    reader_pos_ok res fuel rd (pos s) hist = true ->
+    interact res junk cs keep ev fuel rd s hist
+    = spec_interact res fuel rd (pos s) hist.
+  Proof.
+    induction fuel as [|f IH]; intros s hist HG HB Hp Hok; cbn [interact spec_interact]; [reflexivity|].
+    cbn [reader_pos_ok] in Hok.
+    destruct (rd hist) as [o|]; [|reflexivity].
+    pose proof (step_spec s o HG HB Hp) as Hst.
+    destruct (step s o) as [s' r] eqn:Es.
+    destruct (spec_step res (pos s) o) as [p' r'] eqn:Ep.
+    destruct Hst as (-> & Hp' & HG' & HB').
+    apply andb_prop in Hok as [Hok1 Hok2]. subst p'.
+    apply IH; auto. lia.
+  Qed.
+
+  Theorem reader_history fuel (rd : reader) :
+    reader_pos_ok res fuel rd 0 [] = true ->
+    interact res junk cs keep ev fuel rd init []
+    = spec_interact res fuel rd 0 [].
+  Proof.
+    intros H. apply (interact_spec fuel rd init [] init_Good init_Bnd); simpl; [lia|exact H].
+  Qed.
 End HTTP.
+
+(* the bounds stated with the hypothesis 0 < chunk_size that the code needs
+   (it divides by the chunk size), although the proofs do not use it *)
+Lemma cache_bounded_cs res junk cs keep ev :
+  0 < cs -> 1 <= keep -> policy_ok ev ->
+  forall (ops : list op) (s : state),
+    Bnd keep (chunks s) -> run_maxheld res junk cs keep ev s ops <= keep.
+Proof. intros _. exact (cache_bounded res junk cs keep ev). Qed.
+
+Lemma peak_bounded_cs res junk cs keep ev :
+  0 < cs -> 1 <= keep -> policy_ok ev ->
+  forall (ops : list op) (s : state),
+    Bnd keep (chunks s) -> run_peak res junk cs keep ev s ops <= keep + 1.
+Proof. intros _. exact (peak_bounded res junk cs keep ev). Qed.
 
 (* non-vacuity: a concrete history meeting the hypotheses, crossing chunk
    boundaries, evicting, reading to and past the end *)
@@ -386,10 +512,11 @@ Example c19_nonvacuous :
   let res := [10;11;12;13;14;15;16;17;18;19] in
   let ops := [Read 3; Seek 0 7; Read 5; Tell; Seek 2 (-4); Read (-1); Seek 1 (-9); Read 9; Read 0] in
   pos_ok res 0 ops = true
-  /\ snd (run res (fun _ _ => res) 4 2 init ops)
+  /\ snd (run res (fun _ _ => res) 4 2 evict init ops)
      = [OData [10;11;12]; ONone; OData [17;18;19]; OPos 10; ONone;
         OData [16;17;18;19]; ONone; OData [11;12;13;14;15;16;17;18;19]; OData []]
-  /\ run_maxheld res (fun _ _ => res) 4 2 init ops = 2.
+  /\ run_maxheld res (fun _ _ => res) 4 2 evict init ops = 2
+  /\ run_peak res (fun _ _ => res) 4 2 evict init ops = 3.
 Proof. vm_compute. repeat split. Qed.
 
 (* ---- refutation witnesses for the code before the repairs ---------------- *)
@@ -431,5 +558,28 @@ Proof. exists [Read 0; Tell]. vm_compute. repeat split. Qed.
 (* keep_chunks = 0 is outside the theorem's hypothesis for a reason: the chunk
    being returned has to be held *)
 Lemma keep0_bound_fails :
-  exists ops, run_maxheld res10 (fun _ _ => []) 4 0 init ops > 0.
+  exists ops, run_maxheld res10 (fun _ _ => []) 4 0 evict init ops > 0.
 Proof. exists [Read 1]. vm_compute. reflexivity. Qed.
+
+(* the transient is real: keep_chunks + 1 chunks are held for a moment *)
+Lemma peak_reaches_keep_plus_one :
+  exists ops, pos_ok res10 0 ops = true
+    /\ run_peak res10 (fun _ _ => []) 4 2 evict init ops = 3
+    /\ run_maxheld res10 (fun _ _ => []) 4 2 evict init ops = 2.
+Proof. exists [Read 10]. vm_compute. repeat split. Qed.
+
+(* an adaptive client meeting the hypotheses: reads a 2-byte header, seeks to
+   the offset stored there, reads to the end *)
+Definition demo_reader : reader :=
+  fun hist => match hist with
+              | [] => Some (Read 2)
+              | [OData [a; b]] => Some (Seek 0 (a - 4))
+              | [_; ONone] => Some (Read (-1))
+              | _ => None
+              end.
+
+Example c19_reader_nonvacuous :
+  reader_pos_ok res10 5 demo_reader 0 [] = true
+  /\ interact res10 (fun _ _ => res10) 4 1 evict 5 demo_reader init []
+     = [OData [10; 11]; ONone; OData [16; 17; 18; 19]].
+Proof. vm_compute. split; reflexivity. Qed.
